@@ -34,3 +34,8 @@ def describe(v, tier):
                      "(k distinct non-self neighbours, 1 <= density <= MAX_DENSITY, cost = density - 1)"]
     v.outside = ["n > 5", "graph states not produced by create_arcs/calculate_pdf"]
     v.stubs = ["numpy -> symx.symnp", "logging -> null logger"]
+
+
+def conformance(v, tier, seed):
+    from . import conform
+    return conform.gate(v, [("uns", "log_squared_euclidean"), ("uns", "euclidean"), ("uns", "chi_squared"), ("knn", "manhattan")])
